@@ -38,6 +38,7 @@ for d in dirs:
             print(name, c, "exit", p.returncode, m.group(1) if m else "", flush=True)
     finally:
         sh("git -C /repo worktree remove --force %s" % WT)
+        sh("rm -rf %s" % os.path.join(ROOT, ".build", "harness-" + re.sub(r"[^A-Za-z0-9]", "_", WT)))
     res["detected"] = any(v["exit"] == 1 for v in res["checks"].values())
     json.dump(res, open(os.path.join(d, "verif_result.json"), "w"), indent=1)
 # summary
